@@ -431,9 +431,10 @@ def _rp(ev):
 def run(tier, seed):
     rng = random.Random(1313 + seed)
     # 0. the measurement semantics of the spec satisfies its own laws (all Pauli words up to length 3)
+    from concurrent.futures import ThreadPoolExecutor
     wd = lib.workdir("C13", "ppmself")
-    rs = lib.run_tlc("PpmSelf", lib.cfg(constants={"M": M}, invariants=["ProjLaws"]), wd, timeout=600)
-    lib.require_ok(rs, "PpmSelf")
+    pool = ThreadPoolExecutor(1)
+    fut = pool.submit(lib.run_tlc, "PpmSelf", lib.cfg(constants={"M": M}, invariants=["ProjLaws"]), wd, timeout=900, workers=2)
     events, viol, stats = collect(tier, seed)
     if not events:
         raise lib.MachineryError("no measurement-based rule discovered (vacuous)")
@@ -478,6 +479,11 @@ def run(tier, seed):
         neg += [tlc_case(ev, 0, ops_a), tlc_case(ev, 0, ops_b), dict(tlc_case(ev, 0), ref=ev["ref"] + [rec("S", [ev["ipos"][0]])])]
         neg_kind += ["dropped-correction", "negated-condition", "wrong-reference"]
     br, refs, r1 = run_branch_eval(cases + gcases + neg, "branches", 1200 if tier == "quick" else 3000)
+    rs = fut.result()
+    pool.shutdown()
+    lib.require_ok(rs, "PpmSelf")
+    if rs.distinct != 39:
+        raise lib.MachineryError(f"PpmSelf checked {rs.distinct} Pauli words, expected 39")
     states, trans = rs.distinct + r1.distinct, rs.generated + r1.generated
     # ---- verdicts
     counts = {"weight_comparisons": 0, "branches_attempted": 0, "branches_replayed": 0, "statement_checked_numerically": 0, "replay_errors": {}}
